@@ -51,7 +51,7 @@ func signWith(kp *tlsgen.CertKeyPair, h *comm.Handshake) {
 }
 
 func unitC16(e common.Env, p *common.Part) {
-	p.Rule = "real listeners on 127.0.0.1 with identities registered in two domains; hostile connections interleaved with honest ones; field-level cases through the library's own client with a hostile AuthFunc (domain: other registered / unregistered / empty / boundary shifted into the identity / every registered identity, one of them registered without a domain, claiming every domain with its own valid signature; binding: zero / random / truncated / recorded on another connection; identity: unregistered, another node's certificate, registered identities of several PEM blocks signed with the first / the last certificate's key, PEM with leading garbage, non-PEM, RSA, Ed25519, P-384; signature: absent / random / by another registered key / over another binding / garbled), encoding-level cases through a raw TLS client (every truncation length of the encoded handshake [every 4th in quick], length-prefix lies, trailing bytes, whole-handshake replay); every connection then sends a frame with a unique marker; oracle: marker <-> connection <-> entitled identity table, judged after a fence of honest markers and a grace period; distinct key = (field, mutation, identity); non-trivial when the handshake differs from a valid one for that connection"
+	p.Rule = "real listeners on 127.0.0.1 with identities registered in two domains; hostile connections interleaved with honest ones; field-level cases through the library's own client with a hostile AuthFunc (domain: other registered / unregistered / empty / boundary shifted into the identity / every registered identity, one of them registered without a domain, claiming every domain with its own valid signature; binding: zero / random / truncated / recorded on another connection, also with a signed creation time 31 s / 1 h in the past, at or before 1970, 1 h ahead; identity: unregistered, another node's certificate, registered identities of several PEM blocks signed with the first / the last certificate's key, PEM with leading garbage, non-PEM, RSA, Ed25519, P-384; signature: absent / random / by another registered key / over another binding / garbled), encoding-level cases through a raw TLS client (every truncation length of the encoded handshake [every 4th in quick], length-prefix lies, trailing bytes, whole-handshake replay); every connection then sends a frame with a unique marker; oracle: marker <-> connection <-> entitled identity table, judged after a fence of honest markers and a grace period; distinct key = (field, mutation, identity); non-trivial when the handshake differs from a valid one for that connection"
 	p.Assumptions = append(p.Assumptions, "timestamp staleness is not in the property's list and is not judged; 'no attributed message' is bounded by a fence (honest markers sent afterwards have arrived) plus a grace period, so a slow machine can only cause a missed detection, never an alarm")
 	if !e.Mine(0) {
 		return
@@ -174,6 +174,33 @@ func unitC16(e common.Env, p *common.Part) {
 		}
 		return *recorded
 	}, Entitled: none})
+	// the same with handshakes whose signed creation time is not "now" (the signer's clock is off, or the recording is old): the time
+	// may or may not make the library refuse the handshake on its own connection, but it never makes a recording valid elsewhere
+	for _, age := range []struct {
+		name string
+		ts   func() int64
+	}{{"31 s old", func() int64 { return time.Now().Unix() - 31 }}, {"one hour old", func() int64 { return time.Now().Unix() - 3600 }}, {"from 1970", func() int64 { return 0 }},
+		{"before 1970", func() int64 { return -1 }}, {"one hour ahead", func() int64 { return time.Now().Unix() + 3600 }}} {
+		age := age
+		var rec *comm.Handshake
+		add(c16case{Field: "none", Mutation: "valid handshake of node 2 whose signed creation time is " + age.name + " (recorded for the replay)", Domain: "dom", Auth: func(b []byte) comm.Handshake {
+			h := comm.Handshake{Domain: "dom", TLSBinding: b, Identity: n2.ident.Cert, Timestamp: age.ts()}
+			signWith(n2.ident, &h)
+			recMu.Lock()
+			c := h
+			rec = &c
+			recMu.Unlock()
+			return h
+		}, Entitled: 2, EntDom: "dom", MayReject: true})
+		add(c16case{Field: "binding", Mutation: "whole handshake recorded on another connection, signed creation time " + age.name, Domain: "dom", Auth: func(b []byte) comm.Handshake {
+			recMu.Lock()
+			defer recMu.Unlock()
+			if rec == nil {
+				return comm.Handshake{Domain: "dom"}
+			}
+			return *rec
+		}, Entitled: none})
+	}
 	// --- identity
 	identity := func(name string, ident []byte, sign func(h *comm.Handshake)) {
 		add(c16case{Field: "identity", Mutation: name, Domain: "dom", Auth: func(b []byte) comm.Handshake {
